@@ -641,6 +641,28 @@ func (e *Engine) resolveType(s string, pkg *types.Package) types.Type {
 		}
 		return types.NewSlice(t)
 	}
+	if s == "interface{}" {
+		return types.NewInterfaceType(nil, nil)
+	}
+	if strings.HasPrefix(s, "map[") {
+		depth := 0
+		for i := 3; i < len(s); i++ {
+			if s[i] == '[' {
+				depth++
+			} else if s[i] == ']' {
+				depth--
+				if depth == 0 {
+					k := e.resolveType(s[4:i], pkg)
+					v := e.resolveType(s[i+1:], pkg)
+					if k == nil || v == nil {
+						return nil
+					}
+					return types.NewMap(k, v)
+				}
+			}
+		}
+		return nil
+	}
 	if obj := types.Universe.Lookup(s); obj != nil {
 		if tn, ok := obj.(*types.TypeName); ok {
 			return tn.Type()
@@ -821,15 +843,38 @@ func (e *Engine) evalCall(c *evalCtx, n *ECall) Val {
 				rt = t.Name
 			case *EType:
 				rt = t.T
+			case *EStr:
+				rt = t.S
+			case *ESel:
+				if id, ok := t.X.(*EIdent); ok {
+					rt = id.Name + "." + t.Name
+				}
 			}
 			T := e.resolveType(rt, c.pkg)
+			if T == nil {
+				panic(fmt.Errorf("uf: unknown type %q", rt))
+			}
 			var args []*Term
 			for _, a := range n.Args[2:] {
 				av := e.eval(c, a)
 				args = append(args, av.L...)
 			}
 			ss := leafSorts(T)
-			return Val{T, []*Term{App("uf!"+name, ss[0], args...)}}
+			L := make([]*Term, len(ss))
+			for i, srt := range ss {
+				nm := "uf!" + name
+				if len(ss) > 1 {
+					nm = fmt.Sprintf("uf!%s#%d", name, i)
+				}
+				L[i] = App(nm, srt, args...)
+			}
+			// references named by an uninterpreted function denote objects that existed before the call
+			for i, k := range leafKinds(T) {
+				if (k == lkRef || k == lkPl) && !L[i].hasBound {
+					c.st.assume(Ult(L[i], BVConst(freshRefBase, 64)))
+				}
+			}
+			return Val{T, L}
 		}
 		// conversions to basic types / named types
 		if T := e.resolveType(id.Name, c.pkg); T != nil && len(n.Args) == 1 {
